@@ -12,6 +12,7 @@ import (
 	"encoding/json"
 	"fmt"
 	"sort"
+	"strings"
 
 	"github.com/anyproto/any-sync/commonspace/object/acl/list"
 	"github.com/anyproto/any-sync/commonspace/object/acl/recordverifier"
@@ -32,6 +33,34 @@ const worldSeed = 4040
 
 // index of the first scenario of scenarios() that was added for status/permission divergence
 const firstDivergenceScenario = 12
+
+// index of the first scenario whose state stores out-of-range enum values (invite types, permissions): "odd-*"
+var firstOddScenario = func() int {
+	for i, sc := range scenarios() {
+		if strings.HasPrefix(sc.Name, "odd-") {
+			return i
+		}
+	}
+	return 1 << 30
+}()
+
+// refsOnly drops the literal enum values of the contents and keeps what they refer to
+func refsOnly(cs []aclh.C) []aclh.C {
+	var out []aclh.C
+	for _, c := range cs {
+		c.P, c.T = 0, 0
+		if c.K == "unknown" {
+			c.K = "empty"
+		}
+		var l []aclh.AP
+		for _, ap := range c.L {
+			l = append(l, aclh.AP{A: ap.A})
+		}
+		c.L = l
+		out = append(out, c)
+	}
+	return out
+}
 
 func newEnv() *Env {
 	w := aclh.NewWorld(worldSeed)
@@ -179,13 +208,32 @@ func scenarios() []scenario {
 		{"declined-then-removing", app(aclh.Rec{Author: 2, N: 10, Cs: []aclh.C{{K: "add", L: []aclh.AP{{8, 3}}}}},
 			aclh.Rec{Author: 3, N: 11, Cs: []aclh.C{{K: "decline", R: 6}}},
 			aclh.Rec{Author: 8, N: 12, Cs: []aclh.C{{K: "rremove"}}})},
+		// ---- out-of-range values of the open proto3 enums, stored in the state: invites of undefined types carrying
+		// Admin / Owner / None permissions (made by a non-owner admin: ValidateInvite limits permissions only for
+		// AnyoneCanJoin), a request-to-join invite carrying Owner, an anyone-can-join invite with an undefined permission;
+		// accounts holding undefined permission values.
+		{"odd-invites", app(aclh.Rec{Author: 2, N: 10, Cs: []aclh.C{{K: "invite", A: 110, T: 2, P: 2, Enc: true}}},
+			aclh.Rec{Author: 2, N: 11, Cs: []aclh.C{{K: "invite", A: 111, T: 2, P: 1, Enc: true}}},
+			aclh.Rec{Author: 1, N: 12, Cs: []aclh.C{{K: "invite", A: 112, T: 7, P: 3, Enc: true}}},
+			aclh.Rec{Author: 3, N: 13, Cs: []aclh.C{{K: "invite", A: 113, T: 2147483647, P: 0}}},
+			aclh.Rec{Author: 2, N: 14, Cs: []aclh.C{{K: "invite", A: 114, T: 0, P: 1}}},
+			aclh.Rec{Author: 2, N: 15, Cs: []aclh.C{{K: "invite", A: 115, T: 1, P: 7, Enc: true}}})},
+		{"odd-perms", app(aclh.Rec{Author: 2, N: 10, Cs: []aclh.C{{K: "add", L: []aclh.AP{{13, 7}}}}},
+			aclh.Rec{Author: 1, N: 11, Cs: []aclh.C{{K: "perm", A: 4, P: 6}}},
+			aclh.Rec{Author: 2, N: 12, Cs: []aclh.C{{K: "invite", A: 115, T: 1, P: 100, Enc: true}}},
+			aclh.Rec{Author: 9, N: 13, Cs: []aclh.C{{K: "ijoin", A: 9, R: 12, P: 0, SK: 115, SM: 9, Meta: true, Enc: true}}},
+			aclh.Rec{Author: 2, N: 14, Cs: []aclh.C{{K: "invite", A: 116, T: 2, P: 2, Enc: true}}})},
 	}
 }
 
 // ---------------------------------------------------------------- generator
 
 var kinds = []string{"invite", "revoke", "rjoin", "accept", "perm", "remove", "rk", "decline", "rremove", "perms",
-	"add", "cancel", "ijoin", "ichange", "owner", "options", "empty"}
+	"add", "cancel", "ijoin", "ichange", "owner", "options", "empty", "unknown"}
+
+// values outside the defined range of the two open proto3 enums that hand-signed records can carry
+var oddPerms = []int{6, 7, 9, 100, 2147483647}
+var oddInviteTypes = []int{2, 3, 7, 100, 2147483647}
 
 type gen struct {
 	r *vlib.Rand
@@ -202,8 +250,8 @@ func (g gen) acct() int {
 	return 1 + g.r.Intn(13)
 }
 func (g gen) perm() int {
-	if g.r.Chance(1, 14) {
-		return 7
+	if g.r.Chance(1, 10) {
+		return oddPerms[g.r.Intn(len(oddPerms))]
 	}
 	return g.r.Intn(6)
 }
@@ -271,8 +319,8 @@ func (g gen) content(author int) aclh.C {
 	switch k {
 	case "invite":
 		c.A, c.T, c.P, c.Enc = g.key(), g.r.Intn(2), g.perm(), !g.r.Chance(1, 6)
-		if g.r.Chance(1, 20) {
-			c.T = 2
+		if g.r.Chance(1, 6) {
+			c.T = oddInviteTypes[g.r.Intn(len(oddInviteTypes))]
 		}
 		if g.r.Chance(1, 30) {
 			c.A = 0
@@ -398,7 +446,34 @@ func directed(s aclh.State) []aclh.Rec {
 			add(author, aclh.C{K: "ijoin", A: author, R: i.Rid, P: 0, SK: i.Key, SM: author, Meta: true, Enc: true},
 				aclh.C{K: "perm", A: 4, P: 4})
 		}
+		// every invite, whatever its type, is offered to both consuming records and to every invite change
+		for _, author := range []int{2, 9} {
+			add(author, aclh.C{K: "ijoin", A: author, R: i.Rid, P: 7, SK: i.Key, SM: author, Meta: true, Enc: true})
+			add(author, aclh.C{K: "rjoin", A: author, R: i.Rid, SK: i.Key, SM: author, Meta: true})
+			for _, p := range []int{3, 4, 7} {
+				add(author, aclh.C{K: "ichange", R: i.Rid, P: p})
+			}
+			add(author, aclh.C{K: "ichange", R: i.Rid, P: 3}, aclh.C{K: "ijoin", A: author, R: i.Rid, P: 0, SK: i.Key, SM: author, Meta: true, Enc: true})
+		}
+		add(1, aclh.C{K: "ichange", R: i.Rid, P: 3}, aclh.C{K: "ichange", R: i.Rid, P: 2})
 	}
+	// out-of-range values of the open enums (invite type, permissions) in creating records
+	for _, author := range []int{1, 2, 4} {
+		for _, t := range []int{2, 7} {
+			for _, p := range []int{0, 1, 2, 5, 7} {
+				add(author, aclh.C{K: "invite", A: 107, T: t, P: p, Enc: true})
+			}
+		}
+		add(author, aclh.C{K: "invite", A: 107, T: 1, P: 7, Enc: true})
+		add(author, aclh.C{K: "invite", A: 107, T: 0, P: 1})
+		add(author, aclh.C{K: "add", L: []aclh.AP{{13, 7}}})
+		add(author, aclh.C{K: "add", L: []aclh.AP{{13, 100}}})
+		add(author, aclh.C{K: "perm", A: 4, P: 7})
+		add(author, aclh.C{K: "perms", L: []aclh.AP{{5, 6}, {5, 4}}})
+		add(author, aclh.C{K: "owner", A: 2, P: 7})
+		add(author, aclh.C{K: "invite", A: 107, T: 2, P: 2, Enc: true}, aclh.C{K: "unknown"})
+	}
+	add(9, aclh.C{K: "unknown"})
 	for _, author := range []int{1, 2, 4, 9} {
 		add(author, aclh.C{K: "add", L: []aclh.AP{{13, 2}}})
 		add(author, aclh.C{K: "add", L: []aclh.AP{{13, 3}, {13, 2}}})
@@ -432,6 +507,40 @@ func divergent(s aclh.State) []int {
 		}
 	}
 	return out
+}
+
+// oddRec: the record carries an out-of-range enum value, or refers to an invite of an undefined type / with an
+// undefined permission, or to an account holding an undefined permission.
+func oddRec(rec aclh.Rec, s aclh.State) bool {
+	oddInv := map[int]bool{}
+	for _, i := range s.Invs {
+		if i.Type > 1 || i.Perm > 5 {
+			oddInv[i.Rid] = true
+		}
+	}
+	oddAcc := map[int]bool{}
+	for _, a := range s.Accs {
+		if a.Perm > 5 {
+			oddAcc[a.Id] = true
+		}
+	}
+	if oddAcc[rec.Author] {
+		return true
+	}
+	for _, c := range rec.Cs {
+		if c.P > 5 || (c.K == "invite" && c.T > 1) || c.K == "unknown" || oddAcc[c.A] {
+			return true
+		}
+		if (c.K == "ijoin" || c.K == "rjoin" || c.K == "ichange" || c.K == "revoke") && oddInv[c.R] {
+			return true
+		}
+		for _, ap := range c.L {
+			if ap.P > 5 || oddAcc[ap.A] {
+				return true
+			}
+		}
+	}
+	return false
 }
 
 func firstWith(s aclh.State, perm int, not int) int {
@@ -757,7 +866,7 @@ func main() {
 	}
 
 	r := vlib.NewRand(o.Seed)
-	perScenario := 60
+	perScenario := 50
 	walks, walkLen := 20, 12
 	deepPerScenario, maxSweeps := 3, 2
 	if o.Tier == "thorough" {
@@ -801,9 +910,15 @@ func main() {
 		for di, rec := range directed(s) {
 			// quick tier: every escalation attempt through accept / ownership change (in the scenarios added for
 			// status/permission divergence, which differ from the earlier ones in the divergent accounts only: those
-			// aimed at a divergent account), one quarter of the rest
+			// aimed at a divergent account), one fifth of the rest
 			essential := len(rec.Cs) > 0 && (rec.Cs[0].K == "accept" || rec.Cs[0].K == "owner") && (si < firstDivergenceScenario || aimedAt(rec))
-			if !full && !essential && di%4 != si%4 {
+			// out-of-range enum values: everything in the first three scenarios and in the two scenarios that store such
+			// values; elsewhere only what refers to a stored odd value
+			if oddRec(rec, s) && (si < 3 || si >= firstOddScenario || oddRec(aclh.Rec{Author: rec.Author, Cs: refsOnly(rec.Cs)}, s)) {
+				essential = true
+				w.Stat("gen_directed_out_of_range_enum")
+			}
+			if !full && !essential && di%5 != si%5 {
 				continue
 			}
 			mode := "validate"
@@ -813,10 +928,10 @@ func main() {
 			rn.trial(e, sc.Name, sc.Setup, rec, mode)
 			w.Stat("gen_directed")
 		}
-		// the systematic alphabet: everything aimed at the divergent accounts, a sixth of the rest (quick tier)
+		// the systematic alphabet: everything aimed at the divergent accounts, an eighth of the rest (quick tier)
 		for ai, rec := range alphabet(s, nil) {
 			aimed := aimedAt(rec)
-			if !full && !aimed && ai%6 != si%6 {
+			if !full && !aimed && ai%8 != si%8 {
 				continue
 			}
 			mode := "validate"
@@ -882,9 +997,9 @@ func main() {
 		}
 	}
 	w.Finish("records hand-assembled over the alphabet {17 content kinds} x {13 authors incl. outsiders} x targets x permissions 0..5,7 x "+
-		"existing/bogus/wrong-kind invite and request ids, single and batched (2-4 contents), from 24 representative reachable states "+
+		"(+ out-of-range values of the open enums: permissions 6, 7, 9, 100, 2^31-1, invite types 2, 3, 7, 100, 2^31-1, an unknown oneof member) x existing/bogus/wrong-kind invite and request ids, single and batched (2-4 contents), from 25 representative reachable states "+
 		"(owner, 2 admins, writer, reader, guest, removed, pending join, pending remove, declined, open invites, transferred ownership, "+
-		"stale requests, rotated key; 12 states in which status and permissions diverge: members / the owner Declined or Canceled through a "+
+		"stale requests, rotated key; 2 states storing out-of-range enum values: invites of undefined types carrying Admin / Owner / None, undefined permission values on invites and accounts; 11 states in which status and permissions diverge: members / the owner Declined or Canceled through a "+
 		"stale join request, Active accounts without permissions, stale remove requests across re-admission and ownership transfer): directed "+
 		"escalation attempts + the systematic alphabet around every account (add / perm / perms / owner by owner, admin, writer; self "+
 		"rremove / add / perm / rjoin / ijoin / cancel / accept; request resolution followed by touching the requester in the same record) + "+
